@@ -83,13 +83,15 @@ def _run_rendering(frames, rendering, rng_ego):
 
     cfg = _cfg()
     mgr = pipeline.manager_for(cfg, "map" if rendering == "map" else "base_link", task="tracking")
-    crit = CriticalObjectFilterConfig(mgr.evaluator_config, TARGETS, max_x_position_list=[90.0, 90.0], max_y_position_list=[90.0, 90.0])
-    pfc = PerceptionPassFailConfig(mgr.evaluator_config, TARGETS, [2.0, 2.0])
+    ex, ey, eyaw = rng_ego
+    # in every other history the frame-level configurations list the labels in the opposite order to the evaluation configuration
+    fl = TARGETS[::-1] if int(abs(ex) * 10) % 2 else TARGETS
+    crit = CriticalObjectFilterConfig(mgr.evaluator_config, fl, max_x_position_list=[90.0, 90.0], max_y_position_list=[90.0, 90.0])
+    pfc = PerceptionPassFailConfig(mgr.evaluator_config, fl, [2.0, 2.0])
     groups, summary, ok = [], [], True
     prev_buckets = {lb: [] for lb in TARGETS}
     all_buckets = {lb: [[]] for lb in TARGETS}
     all_g = {lb: 0 for lb in TARGETS}
-    ex, ey, eyaw = rng_ego
     for t, (gts, ests) in enumerate(frames):
         ego = EgoPose(ex + 3.0 * t, ey - 1.0 * t, 0.0, eyaw + 0.2 * t) if rendering == "map" else None
         fr_name = "map" if rendering == "map" else "base_link"
